@@ -6,7 +6,7 @@ adopt a failed line as its snapshot."""
 import re
 from ..core import (callee_of, expr_walk, expr_str, return_defs, short, op_place, MissingAnchor, FROM_RESIDUAL)
 from .. import awrite, inline
-from ..pathq import (try_continue_block, bool_branch, blocks_reaching, blocks_after, exists_path_avoiding)
+from ..pathq import (try_continue_block, bool_branch, blocks_reaching, blocks_after, exists_path_avoiding, edge_guards)
 
 EXPLANATION = (
     "Acquire/release on all exits, decided on the MIR control-flow graph including every `?` edge. Build entries are found "
@@ -146,6 +146,27 @@ def _end_of_code(e):
     return False
 
 
+def built_blocks(f):
+    """blocks of a release function that lie behind the test `no context of this source is open any more` (State.nested is not
+    deeper than the depth recorded in the entry mark): the source was built and has left its context, nothing is there to release"""
+    from ..pathq import cmp_on_side
+    out = set()
+    for bb in f.reachable_blocks():
+        for (_b2, e, side) in edge_guards(f, bb):
+            c = cmp_on_side(e, side)
+            if c is None:
+                continue
+            op, a, b = c
+            sa, sb = expr_str(a, -12), expr_str(b, -12)
+            a_n, b_n = 'nested' in sa and 'len' in sa, 'nested' in sb and 'len' in sb
+            a_m = any(isinstance(x, tuple) and x[0] == 'arg' and x[1] >= 2 for x in expr_walk(a))
+            b_m = any(isinstance(x, tuple) and x[0] == 'arg' and x[1] >= 2 for x in expr_walk(b))
+            if (a_n and b_m and op in ('Le', 'Lt', 'Eq')) or (b_n and a_m and op in ('Ge', 'Gt', 'Eq')):
+                out.add(bb)
+    return out
+
+
+
 def halt_sites(fx, W, f, ws):
     """[{bb, at}]: where f sets the ip to the end of the code - by assignment or through the logging setter"""
     out = [{'bb': w['bb'], 'at': w['at']} for w in ws if is_halt_write(f, w)]
@@ -261,7 +282,8 @@ def run(rep, facts, tier):
         n_rel += 1
         ws = Wv(rf)
         rets = set(f.return_blocks())
-        halts = {h['bb'] for h in halt_sites(fx, W, f, ws)}
+        built = built_blocks(f)
+        halts = {h['bb'] for h in halt_sites(fx, W, f, ws)} | built
         for res, mark in sorted(RESOURCES.items()):
             sites = [w for w in ws if w['field'][0] == res and w['how'].startswith('call:shrink')]
             blocks = {w['bb'] for w in sites}
@@ -271,11 +293,11 @@ def run(rep, facts, tier):
                 blocks |= {ev['bb'] for ev in awrite.field_events(fx, f, {'state::State': {'reverse_log'}}) if ev['mut']}
             p = exists_path_avoiding(f, 0, lambda b: b in rets, blocks | halts)
             ok = p is None and bool(sites)
-            why = 'every path through %s truncates State.%s (or takes the halt path)' % (short(rf), res)
+            why = 'every path through %s truncates State.%s (or is the path of a source that was built and has left its context)' % (short(rf), res)
             if not sites:
                 why = '%s never shrinks State.%s' % (short(rf), res)
             elif p is not None:
-                why = 'a path through %s (bb%s) releases neither State.%s nor halts' % (short(rf), '->bb'.join(map(str, p[:8])), res)
+                why = 'a path through %s (bb%s) does not release State.%s although a context of the rejected source may still be open' % (short(rf), '->bb'.join(map(str, p[:8])), res)
             # bound derives from the matching mark
             if ok and mark:
                 good = False
@@ -324,6 +346,21 @@ def run(rep, facts, tier):
                 if not good:
                     ok = False
                     why = 'State.%s is truncated to a bound that does not come from the mark taken at build entry' % res
+                else:
+                    # ... and it is the mark itself, not something computed from it that can lie above it (`keep = mark; for .. { keep
+                    # = i + 1 }`): whatever is younger than the build entry goes
+                    for w in sites:
+                        for a in w['term']['args'][1:]:
+                            e = f.expr_of_operand(a)
+                            if not any(isinstance(x, tuple) and x[0] == 'arg' for x in expr_walk(e)):
+                                continue
+                            grown = [x for x in expr_walk(e) if isinstance(x, tuple) and x and
+                                     (x[0] == 'bin' and x[1] in ('Add', 'AddWithOverflow', 'Mul', 'MulWithOverflow') or
+                                      x[0] == 'call' and x[1].rsplit('::', 1)[-1] in ('max', 'saturating_add', 'wrapping_add', 'checked_add'))]
+                            if grown:
+                                ok = False
+                                why = ('State.%s is truncated to a bound computed from the entry mark that can lie above it (%s): something '
+                                       'registered by the rejected source survives the roll-back' % (res, expr_str(grown[0], -6)[:60]))
             rep.add('C10.R1', 'C10.R1:%s:releases:%s' % (rf, res), ok, why, rf, sites[0]['at'] if sites else f.j['span'])
         # ctx restore from nested
         ctxw = [w for w in ws if w['field'] == ('ctx',)]
@@ -368,11 +405,12 @@ def run(rep, facts, tier):
                 'the full-release path resets last_error.runtime: a build rejected by a build-time execution failure is not mistaken for a failed run'
                 if clears else '%s leaves last_error.runtime set: after a build rejected by a failing meta block / immediate word the next compile '
                 'halts pending, healthy code' % short(rf), rf, lw[0]['at'] if lw else f.j['span'])
-        # the halt path really halts
-        rep.add('C10.R2', 'C10.R2:%s:halt-on-failed-run' % rf, bool(halts),
-                'the built-but-failed-at-run path sets ctx.ip to the end of the code (program halted)' if halts else
-                '%s has no halt write for a source that failed while running' % short(rf), rf,
-                halt_sites(fx, W, f, ws)[0]['at'] if halts else f.j['span'])
+        # a source that was built and failed while running is not rolled back: it is left as compile + run leaves it (stopped at
+        # the failing instruction, or halted); the next source halts it (C10.R2 below)
+        rep.add('C10.R2', 'C10.R2:%s:built-source-is-not-rolled-back' % rf, bool(halts),
+                'the path of a source that has left its context (nested depth back at the entry depth) skips the roll-back' if halts else
+                '%s rolls back every failing source, also one that was built and failed while running: its results and definitions are '
+                'discarded where compile + run keeps them' % short(rf), rf, f.j['span'])
     rep.floor('C10 release functions', n_rel, 1)
 
     # everything a build can grow is either released or deliberately kept: State fields with a growing write in code reachable
